@@ -220,3 +220,33 @@ PROPS["C04"] = {
     "min_nontrivial": {"quick": 2000, "thorough": 2000},
     "assumptions": ["parameter / local / captured names are plain names (a name spelling a built-in is turned into the built-in at parse time; not judged)"],
 }
+
+PROPS["C02"] = {
+    "shards": {"quick": 8, "thorough": 16},
+    "needs_cli": True,
+    "probe_opts": {"quick": {"cli": _CLI}, "thorough": {"cli": _CLI}},
+    "rule": ("generated well-scoped programs (2-12 statements + a block that sorts / reverses / uniques / spreads shared lists, calls random(seed), builds closures over >= 3 captured "
+             "names, records with >= 3 keys, group_by / sort_by): (1) evaluated 4 times in fresh heaps with unrelated programs in between - per statement status, value (bit-exact, "
+             "ordered records) and the outputs JSON bytes must agree; (2) a sample run 4 (quick) / 16 (thorough) times as separate CLI processes - stdout bytes and exit status must be "
+             "identical; (3) heap-cell fingerprints before / after every statement + hook H3 (only function cells are handed out mutably); (4) `r = E` and `r_twice = E` agree; "
+             "(5) let-abstraction: a strictly evaluated subexpression E' is bound to a fresh name and replaced - the result must not change (cases where E' fails alone are discarded). "
+             "non-trivial = a statement produced a heap value and the program creates a lambda or a record"),
+    "min_nontrivial": {"quick": 1000, "thorough": 1000},
+    "assumptions": ["time_now and print are never generated", "error message text differences are reported as observations, not violations"],
+}
+
+PROPS["C05"] = {
+    "shards": {"quick": 8, "thorough": 16},
+    "needs_cli": True,
+    "probe_opts": {"quick": {"cli": _CLI}, "thorough": {"cli": _CLI}},
+    "rule": ("functions are defined in one heap, emitted through from_value -> to_json -> text, reloaded through from_str -> from_json (must be a function, not a record) -> to_value "
+             "into a fresh heap, and original vs reloaded are applied to the same argument tuples (fixed type-separating tuples + random ones from a 22-value pool of numbers, "
+             "booleans, strings, lists, records, lambdas, built-ins; arity-1/+1 too): status and value must agree; then the reloaded function is emitted and reloaded again. "
+             "Workloads: (a) EVERY two-level tree shape (parent kind/position x child kind, all 26 operators) as a 5-parameter function body; (b) 36 captured values (strings with "
+             "either / both quotes, backslashes, newlines; negative, -0, non-finite, huge and tiny numbers; nested lists, records with keys needing quotes, closures over two levels, "
+             "built-ins) x 29 syntactic positions of the captured name; (c) random typed bodies closing over random captured bindings; (d) 12 real `blots a | blots b` pipelines; "
+             "(e) validate_portable_value accepts exactly the closed functions. non-trivial = the original succeeds on at least one tuple"),
+    "exhaustive_subspaces": ["two-level parent x child x position shapes", "captured value pool x syntactic positions"],
+    "min_nontrivial": {"quick": 1500, "thorough": 1500},
+    "assumptions": ["functions returned as results are compared by parameter list only", "error messages are not compared (reloaded functions are anonymous)"],
+}
